@@ -259,7 +259,9 @@ def run_case(case):
                     if interior:
                         perms = (int(rng.integers(H.facet_perm_count(orc.cellname, ents[0]))), int(rng.integers(H.facet_perm_count(orc.cellname, ents[1]))))
                     ent = None if itype == "cell" else np.array(ents if interior else ents[:1], dtype=np.intc)
-                    perm = np.array(perms, dtype=np.uint8) if interior else None
+                    # ridge kernels and exterior-facet kernels with needs_facet_permutations (mixed-dimensional) take one code
+                    one_perm = itype == "ridge" or (itype == "exterior_facet" and idesc["needs_facet_permutations"])
+                    perm = np.array(perms, dtype=np.uint8) if interior else (np.array(perms[:1], dtype=np.uint8) if one_perm else None)
                     A_c = np.zeros(shape, dtype=dt)
                     H.call_kernel(ffi, itg, scalar, A_c, w, c, x, ent, perm)
                     A_n = np.zeros(int(np.prod(shape)), dtype=dt)
@@ -290,7 +292,7 @@ def run_case(case):
                         if sum(1 for (t2, s2, _k, _i) in entries if (t2, s2) == (itype, sid)) != 1:
                             raise O.Unsupported("several kernels listed under this id: the C kernel is the reference")
                         R, S, _ = orc.tensor(itype, sid, _cast_data(data, dt, rdt), ents, perms)
-                        e2, bnd, st = H.compare(A_n.reshape(R.shape).astype(wide), R, S, scalar, 0.0, ops=16)
+                        e2, bnd, st = H.compare(A_n.reshape(R.shape).astype(wide), R, S, scalar, getattr(comp, "table_delta", 0.0), ops=16, floor=1.0)
                         if st == "bad":
                             viol("numba-kernel-differs-from-oracle", f"{itype}/{sid}: err {e2:.3e}")
                         elif st == "ok":
@@ -383,6 +385,7 @@ def cases_for(tier, s):
              {"recipe": {"b": "packing", "cell": "triangle", "p": {"seed": [s, 18, 2]}}}, {"recipe": {"b": "facet_plain", "cell": "prism"}},
              {"recipe": {"b": "mathfuns", "cell": "triangle"}}, {"recipe": {"b": "mathfuns", "cell": "interval"}}, {"recipe": {"b": "conditionals", "cell": "quadrilateral"}},
              {"recipe": {"b": "conditionals", "cell": "triangle"}}, {"recipe": {"b": "facet_edge_lengths", "cell": "tetrahedron"}},
+             {"recipe": {"b": "ridge_form", "cell": "tetrahedron", "p": {"which": 0}}}, {"recipe": {"b": "mixed_dim_codim1", "cell": "triangle", "p": {"which": 1}}},
              {"recipe": {"b": "bessel", "cell": "triangle", "p": {"kind": "J"}}}, {"recipe": {"b": "bessel", "cell": "interval", "p": {"kind": "Y", "nu": 2}}},
              {"recipe": {"b": "tp_mass_stiff", "cell": "quadrilateral", "tpmesh": True, "p": {"degree": 2}}, "options": {"sum_factorization": True}},
              {"recipe": {"b": "mass", "cell": "triangle", "p": {"degree": 2}}, "options": {"part": "diagonal"}}]
